@@ -1,4 +1,4 @@
-import RsMatterVerif.Lemmas.SubsLive
+import RsMatterVerif.Lemmas.SubsDeliver
 /-!
 # C13 — a subscriber eventually learns every change it subscribed to
 
@@ -569,29 +569,150 @@ theorem unsent_while_owed_loses_change :
     (∀ c ∈ ((s2.report 40000000 0).1).ctxs, (s2.report 40000000 0).1.shouldReportAttr c 1 2 3 = false) := by
   refine ⟨by decide, by decide, by decide, by decide, by decide⟩
 
-/-! ## Eventuality
+/-! ## Delivery
 
 `stateAt`, `Owes`, `Fair`, the identity invariant `UID` and the tracking argument are in
-`Lemmas/SubsLive.lean`. -/
+`Lemmas/SubsLive.lean`; `BeginsAt`, `NoRestart` and the window lemmas in `Lemmas/SubsDeliver.lean`. -/
 
-/-- **Full statement**: along every fair schedule (see `Subs.Fair` for the five clauses: one reporter
-task; the reporter pass with its expiry sweep runs again and again while time advances; every begun
-priming / report completes with keep, retry or drop; a subscription does not stay un-primed forever;
-the clock does not overflow) without change-id wrap, a subscription that owes a recorded change does
-not owe it forever. -/
+/-- **Full statement (bounded form, no fairness, not implied by expiry).** Along **every** schedule of
+table operations without change-id wrap in which the reporter ends a report `unsent` only when its
+filter selects nothing (`UnsentOk`): let change `(i, p)` be recorded by step `k`, and let **any** report
+begin at a step `j ≥ k` (no restart in between) for a subscription that has not seen the change
+(`c.sub.seenAttr < i`), its context `c` staying alive through step `m`. Then
+1. the watermark the report will commit covers the change (`i ≤ c.nextAttr`);
+2. at **every** instant of the flight the report's filter `should_report_attr` selects every attribute
+   the change touches — whatever else happened in between (other subscribers primed, acknowledged,
+   `purge_reported_changes`, coalescing, promotion to wildcards);
+3. if the context ends at `m` with `keep` (the report was acknowledged), the subscription does not owe
+   the change afterwards;
+4. if it ends with `retry` and the subscription is still alive, it is back in the table with the same
+   watermark and last-success instant — it still owes the change, and the next report that begins for
+   it is covered by this statement again (so the **first kept report begun at or after the change
+   carries it**);
+5. if it ends `unsent`, the change touches no attribute at all (nothing was owed).
+When such a report begins is `owed_report_begins_at_call` (progress). The statement is **false for the
+code before the repair of `purge_reported_changes`**: `C13_full_fails_for_purgeOld`. -/
 def C13_full : Prop :=
+  ∀ (hz n : Nat) (sched : Nat → Op),
+    (∀ k, (stateAt hz n sched k).changed.nextId + 1 < U64) → UnsentOk hz n sched →
+    ∀ (k j m : Nat) (c : Ctx) (i : Nat) (p : Entry), (i, p) ∈ (stateAt hz n sched k).log →
+      k ≤ j → j < m → NoRestart sched k (m + 1) → BeginsAt hz n sched j c → c.sub.seenAttr < i →
+      (∀ t, j < t → t ≤ m → c ∈ (stateAt hz n sched t).ctxs) →
+      i ≤ c.nextAttr ∧
+      (∀ t, j < t → t ≤ m → ∀ ep cl attr, p.matchesPath ep cl attr = true →
+        (stateAt hz n sched t).shouldReportAttr c ep cl attr = true) ∧
+      (sched m = .fin c.sub.id .keep →
+        ¬ Owes (stateAt hz n sched (m + 1)) (stateAt hz n sched k).epoch c.sub.id i) ∧
+      (sched m = .fin c.sub.id .retry →
+        Owes (stateAt hz n sched (m + 1)) (stateAt hz n sched k).epoch c.sub.id i →
+        ∃ x ∈ (stateAt hz n sched (m + 1)).subs, x.id = c.sub.id ∧ x.seenAttr = c.sub.seenAttr ∧
+          x.seenEv = c.sub.seenEv ∧ x.reportedAt = c.sub.reportedAt ∧ x.maxInt = c.sub.maxInt ∧
+          x.minInt = c.sub.minInt) ∧
+      (sched m = .fin c.sub.id .unsent → ∀ ep cl attr, p.matchesPath ep cl attr = false)
+
+theorem C13_full_holds : C13_full := by
+  intro hz n sched hw hok k j m c i p hlog hkj hjm hnr hb hlt hfl
+  have hcm : c ∈ (stateAt hz n sched m).ctxs := hfl m hjm (Nat.le_refl _)
+  refine ⟨begin_snapshot_covers hw hlog hkj (hnr.mono (Nat.le_refl _) (by omega)) hb, ?_, ?_, ?_, ?_⟩
+  · intro t hjt htm ep cl attr hm
+    exact owed_selected_while_alive hw hlog (by omega) (hnr.mono (Nat.le_refl _) (by omega)) (hfl t hjt htm) hlt hm
+  · intro hs
+    exact keep_ends_debt hw hcm hs
+      (begin_snapshot_covers hw hlog hkj (hnr.mono (Nat.le_refl _) (by omega)) hb)
+  · intro hs ho
+    exact retry_returns_same hw hcm hs ho
+  · intro hs ep cl attr
+    exact unsent_discharges_nothing hok hw hs hcm rfl
+      (log_mono_le (by omega) (hnr.mono (Nat.le_refl _) (by omega)) hlog) hlt ep cl attr
+
+/-! ### the statement is false for the code before the repair of `purge_reported_changes` -/
+
+/-- the step function of the unrepaired table: `purge` is `purge_reported_changes` as it was -/
+def stepOld (s : State) : Op → State
+  | .purge => s.purgeOld
+  | op => s.step op
+
+def stateAtOld (hz n : Nat) (sched : Nat → Op) : Nat → State
+  | 0 => State.new hz n
+  | k + 1 => stepOld (stateAtOld hz n sched k) (sched k)
+
+/-- subscriber 1 is priming when the change is recorded; the purge runs; the priming is acknowledged;
+half a maximum interval later the liveness report begins and is acknowledged -/
+def oldSched : Nat → Op
+  | 0 => .add 0 1 10 1 60 0
+  | 1 => .change (P 1 2 3)
+  | 2 => .purge
+  | 3 => .fin 1 .keep
+  | 4 => .report 40000000 0
+  | 5 => .fin 1 .keep
+  | _ => .persist
+
+/-- the context of the liveness report of `oldSched` -/
+def oldCtx : Ctx :=
+  { sub := sub1', nextAttr := 1, nextEv := 0, nextReportedAt := 40000000, nextRetryAt := 0, nextFail := 0 }
+
+/-- **`C13_full` fails for the old `purge_reported_changes`** — every hypothesis of `C13_full` holds on
+the history `oldSched` of the unrepaired table (change 1 of attribute 1.2.3 is in the log at step 2, the
+report of subscription 1 begins at step 4 ≥ 2, the subscription has not seen the change, the context
+lives through step 5 where it ends with `keep`, no `unsent`, no restart, no wrap), **yet the report's
+filter does not select attribute 1.2.3** (clause 2 is false) — the report is acknowledged, the watermark
+moves past the change (the weak statement `eventually_ended_or_delivered_weak` is satisfied), the
+subscriber never gets it. On the repaired table the same history selects it. -/
+theorem C13_full_fails_for_purgeOld :
+    (1, P 1 2 3) ∈ (stateAtOld 1000000 1 oldSched 2).log ∧
+    oldSched 4 = .report 40000000 0 ∧
+    oldCtx ∉ (stateAtOld 1000000 1 oldSched 4).ctxs ∧ oldCtx ∈ (stateAtOld 1000000 1 oldSched 5).ctxs ∧
+    oldCtx.sub.seenAttr < 1 ∧ (P 1 2 3).matchesPath 1 2 3 = true ∧ oldSched 5 = .fin oldCtx.sub.id .keep ∧
+    (stateAtOld 1000000 1 oldSched 5).shouldReportAttr oldCtx 1 2 3 = false ∧
+    (∀ x ∈ (stateAtOld 1000000 1 oldSched 6).live, x.id = 1 → 1 ≤ x.seenAttr) ∧
+    oldCtx ∈ (stateAt 1000000 1 oldSched 5).ctxs ∧
+    (stateAt 1000000 1 oldSched 5).shouldReportAttr oldCtx 1 2 3 = true := by
+  refine ⟨by decide, rfl, by decide, by decide, by decide, by decide, rfl, by decide, by decide, by decide,
+    by decide⟩
+
+/-! ### the weak eventuality (kept under an honest name) -/
+
+/-- **Weak statement** (the former `C13_full`): along every fair schedule a subscription that owes a
+recorded change does not owe it for ever. **This follows from `Fair` and expiry alone** — `Fair.sweeps`
+with `Fair.horizon` force an expiry sweep at the end of the clock that removes every subscription
+(`fair_schedule_sweeps_every_subscription`), so the disjunct "the subscription has ended" is eventually
+true in every fair schedule whatever `report` / `purge` / `fin` do; the statement also holds for the
+unrepaired `purge_reported_changes`, and "does not owe" is reached by an `unsent` ending as well
+(`unsent_while_owed_loses_change`). It says nothing about delivery; `C13_full` does. -/
+def C13_weak : Prop :=
   ∀ (hz n : Nat) (sched : Nat → Op), Fair hz n sched →
     (∀ k, (stateAt hz n sched k).changed.nextId + 1 < U64) →
     ∀ k id i p, (i, p) ∈ (stateAt hz n sched k).log →
       Owes (stateAt hz n sched k) (stateAt hz n sched k).epoch id i →
       ∃ k', k ≤ k' ∧ ¬ Owes (stateAt hz n sched k') (stateAt hz n sched k).epoch id i
 
-/-- `C13_full` is proved (by contradiction over the tracking invariant `Subs.Track`: an owing
-subscription that has been in the table since the change was recorded keeps its last-success instant
-`R` through every retry, every report begun for it snapshots a watermark ≥ `i`, so an acknowledgement
-ends the debt; if none comes, the sweep of a reporter pass at or after `R + max_int` removes it). -/
-theorem C13_full_holds : C13_full :=
+theorem C13_weak_holds : C13_weak :=
   fun _ _ _ hf hw k id i p hlog _ => eventually_not_owes hf hw k id i p hlog
+
+/-- why `C13_weak` is weak: `Fair` alone (nothing about reports) empties the table of every
+subscription that has an expiry base, again and again -/
+theorem fair_schedule_sweeps_every_subscription {hz n : Nat} {sched : Nat → Op} (hf : Fair hz n sched)
+    (k : Nat) : ∃ k', k ≤ k' ∧ ∀ x ∈ (stateAt hz n sched (k' + 1)).subs, x.expiryBase = IMAX := by
+  obtain ⟨k', now, p, hk, hnow, hs, hp, _⟩ := hf.sweeps k (IMAX - 1) (by decide)
+  refine ⟨k', hk, ?_⟩
+  intro x hx
+  have hx' : x ∈ ((stateAt hz n sched k').step (sched k')).subs := hx
+  rw [hs] at hx'
+  simp only [State.step] at hx'
+  obtain ⟨cx, h1⟩ := remove_shape (stateAt hz n sched k') p
+  rw [h1] at hx'
+  simp only [rmTo] at hx'
+  have hno := removeLoop_all p _ (stateAt hz n sched k').subs (stateAt hz n sched k').count (by omega) x hx'
+  apply Classical.byContradiction
+  intro hne
+  obtain ⟨rem, hperm⟩ := removeLoop_perm p ((stateAt hz n sched k').subs.length + 1)
+    (stateAt hz n sched k').subs (stateAt hz n sched k').count
+  have hmem : x ∈ (stateAt hz n sched k').subs := hperm.subset (List.mem_append_right _ hx')
+  have hlive : x ∈ (stateAt hz n sched k').live := by simp [State.live, hmem]
+  have hh := hf.horizon k' x hlive hne
+  have hexp := expired_of (x := x) (hz := hz) (now := now) rfl rfl hh (by omega)
+  rw [hp x hexp] at hno
+  cases hno
 
 /-- what "does not owe any more" means: the device restarted, or the subscription has ended, or its
 acknowledged watermark has reached the change -/
@@ -620,12 +741,11 @@ theorem not_owes_iff {s : State} (hu : UID s) (ep id i : Nat) :
       subst this
       omega
 
-/-- **Eventual delivery, spelled out**: along a fair schedule every change a live subscription has
-not seen is, after finitely many steps, covered by an acknowledged report of that subscription (its
-committed watermark is ≥ the change id: `keep_commits_snapshot`, and while the report was in flight
-its filter selected the change: `owed_in_report`), or the subscription has ended, or the device has
-restarted (after which the resumed subscription is not primed and gets everything). -/
-theorem C13_delivered_or_ended {hz n : Nat} {sched : Nat → Op} (hf : Fair hz n sched)
+/-- the weak statement spelled out: along a fair schedule, after finitely many steps the device has
+restarted, **or the subscription has ended** (which `Fair` forces sooner or later by itself, see
+`C13_weak`), or the subscription's committed watermark is ≥ the change id (by a `keep` — or by an
+`unsent` — ending). Not a delivery statement. -/
+theorem eventually_ended_or_delivered_weak {hz n : Nat} {sched : Nat → Op} (hf : Fair hz n sched)
     (hw : ∀ k, (stateAt hz n sched k).changed.nextId + 1 < U64)
     (k id i : Nat) (p : Entry) (hlog : (i, p) ∈ (stateAt hz n sched k).log) :
     ∃ k', k ≤ k' ∧
@@ -964,6 +1084,36 @@ example : ∃ (hz n : Nat) (sched : Nat → Op), Fair hz n sched ∧
     have h : ∀ x ∈ (fS 5).live, ¬ (x.id = 1 ∧ x.seenAttr < 1) := by decide
     exact h x hx ⟨hid, hlt⟩
 
+
+/-- the context of the report that begins at step 3 of `fairSched` -/
+def fairCtx : Ctx :=
+  { sub := sub1', nextAttr := 1, nextEv := 0, nextReportedAt := 5000000, nextRetryAt := 0, nextFail := 0 }
+
+theorem fairSched_no_unsent (k id : Nat) : fairSched k ≠ .fin id .unsent := by
+  unfold fairSched
+  split <;> simp
+
+theorem fairSched_no_restart (a b : Nat) : NoRestart fairSched a b := by
+  intro t _ _ now ev h
+  unfold fairSched at h
+  split at h <;> cases h
+
+/-- **the hypotheses of `C13_full` are satisfiable** (and its conclusions are seen at work): on
+`fairSched` change 1 is in the log at step 3, the report of subscription 1 begins at step 3, lives
+through step 4 and ends there with `keep` -/
+example : ∃ (hz n : Nat) (sched : Nat → Op) (k j m : Nat) (c : Ctx) (i : Nat) (p : Entry),
+    (∀ k, (stateAt hz n sched k).changed.nextId + 1 < U64) ∧ UnsentOk hz n sched ∧
+    (i, p) ∈ (stateAt hz n sched k).log ∧ k ≤ j ∧ j < m ∧ NoRestart sched k (m + 1) ∧
+    BeginsAt hz n sched j c ∧ c.sub.seenAttr < i ∧
+    (∀ t, j < t → t ≤ m → c ∈ (stateAt hz n sched t).ctxs) ∧ sched m = .fin c.sub.id .keep ∧
+    (stateAt hz n sched m).shouldReportAttr c 1 2 3 = true :=
+  ⟨1000000, 1, fairSched, 3, 3, 4, fairCtx, 1, P 1 2 3, fair_nowrap,
+    fun k id hs => absurd hs (fairSched_no_unsent k id), by decide, by omega, by omega,
+    fairSched_no_restart _ _, ⟨5000000, 0, rfl, by decide, by decide⟩, by decide,
+    fun t h1 h2 => by
+      have : t = 4 := by omega
+      subst this; decide,
+    rfl, by decide⟩
 
 /-- like `fairSched`, then one expiry sweep and reporter passes that find nothing for ever -/
 def idleSched : Nat → Op
